@@ -60,17 +60,22 @@ def bignum_encoders(pid):
         ints.add(v if rnd.random() < 0.5 else -v)
     cmds = [f"en {v}" for v in sorted(nats)] + [f"ei {v}" for v in sorted(ints)]
     exps = ["ok " + leb_ref(v).hex() for v in sorted(nats)] + ["ok " + sleb_ref(v).hex() for v in sorted(ints)]
+    # the 128-bit host-integer encoders on the same values as far as they fit
+    n128 = [v for v in sorted(nats) if v < 2 ** 128]
+    i128 = [v for v in sorted(ints) if -2 ** 127 <= v < 2 ** 127]
+    cmds += [f"e128n {v}" for v in n128] + [f"e128i {v}" for v in i128]
+    exps += ["ok " + leb_ref(v).hex() for v in n128] + ["ok " + sleb_ref(v).hex() for v in i128]
     p = subprocess.run([exe], input="\n".join(cmds) + "\n", capture_output=True, text=True, timeout=300)
     outs = p.stdout.splitlines()
     failures = []
     for c, e, o in zip(cmds, exps, outs):
         if o.strip() != e:
-            fn = "Nat::encode" if c.startswith("en") else "Int::encode"
+            fn = {"en": "Nat::encode", "ei": "Int::encode", "e128n": "leb128::encode_nat", "e128i": "leb128::encode_int"}[c.split()[0]]
             failures.append({
-                "obligation": f"bounded-standin::{fn}::output == {'leb' if c.startswith('en') else 'sleb'}(value)", "unit": "bounded-standin",
+                "obligation": f"bounded-standin::{fn}::output == {'leb' if c.split()[0] in ('en', 'e128n') else 'sleb'}(value)", "unit": "bounded-standin",
                 "item": fn, "fn": "encode", "kind": "bounded-standin", "file": "rust/candid/src/types/number.rs", "line": 0,
                 "source_text": "", "clause": None,
-                "verifier_message": f"{fn}({c[3:]}) on the real crate wrote {o.strip()} but the minimal encoding is {e}",
+                "verifier_message": f"{fn}({c.split()[1]}) on the real crate wrote {o.strip()} but the minimal encoding is {e}",
                 "witness": {"confirmed": True, "function": f"rust/candid/src/types/number.rs::{fn}", "input": c, "expected": e,
                             "got": o.strip(), "replay_cmd": f"echo '{c}' | {exe}   # expected: {e}"}})
             if len(failures) >= 3:
@@ -81,7 +86,7 @@ def bignum_encoders(pid):
         "trusted": [], "cmds": [f"{exe} < vectors (bounded stand-in)"],
         "backends": ["BOUNDED stand-in (concrete enumeration on the real crate; not a proof)"],
         "samples": [],
-        "bounded_standins": [{"functions": ["number.rs Nat::encode", "number.rs Int::encode"],
+        "bounded_standins": [{"functions": ["number.rs Nat::encode", "number.rs Int::encode", "leb128.rs encode_nat", "leb128.rs encode_int"],
                               "bound": f"n = +-2^k + d, k <= {kmax}, d in -2..2, plus {400 * scale} seeded pseudo-random values < 2^{kmax}",
                               "vectors": len(cmds), "disagreements": len(failures), "labelled": "bounded, NOT proved",
                               "wall_s": round(time.time() - t0, 1)}],
